@@ -169,8 +169,10 @@ partial def parseOpts (ts : List PTok) : Option (List Opt × List PTok) :=
         | .word w =>
           if w.toUpper == "NULL" then do let (os, r) ← parseOpts rest'; some ({ kind := .default, dflt := .null } :: os, r)
           else if w.toUpper == "CURRENT_TIMESTAMP" then do
-            let rest' ← eatSym '(' rest'
-            let rest' ← eatSym ')' rest'
+            -- with or without the call parentheses
+            let rest' := match eatSym '(' rest' with
+              | some r1 => (eatSym ')' r1).getD rest'
+              | none => rest'
             let (os, r) ← parseOpts rest'
             some ({ kind := .default, dflt := .now } :: os, r)
           else none
@@ -203,6 +205,12 @@ def parseStmt (raw : List Char) (ts : List PTok) : Option Stmt :=
     let ts ← eatKws ["CREATE", "TABLE"] ts
     let (t, ts) ← eatName ts
     let ts ← eatSym '(' ts
+    -- an optional table comment after the closing parenthesis: `) COMMENT 'text'`
+    let ts := match ts.reverse with
+      | c :: k :: rest => (match c.tok with
+          | .str _ => if kwEq k "COMMENT" then rest.reverse else ts
+          | _ => ts)
+      | _ => ts
     let last ← ts.getLast?
     if last.tok != .sym ')' then none else
     let inner := ts.dropLast
@@ -240,6 +248,16 @@ def parseStmt (raw : List Char) (ts : List PTok) : Option Stmt :=
       let ts ← eatKws ["ON"] ts
       let (t, ts) ← eatName ts
       if ts.isEmpty then some (.dropIndex t n) else none) <|>
+  (do
+    -- COMMENT ON TABLE t IS 'text': recorded as a comment on the pseudo column ""
+    let ts ← eatKws ["COMMENT", "ON", "TABLE"] ts
+    let (t, ts) ← eatName ts
+    let ts ← eatKws ["IS"] ts
+    match ts with
+    | [s] => match s.tok with
+      | .str x => some (.commentOn t "" x)
+      | _ => none
+    | _ => none) <|>
   (do
     let ts ← eatKws ["COMMENT", "ON", "COLUMN"] ts
     let (t, ts) ← eatName ts
